@@ -92,6 +92,14 @@ def family(rp):
     f.add("literal-int-into-str", "def r: Str := 2", "reject")
     f.add("literal-str-into-int", "def r: Int := \"s\"", "reject")
     f.add("literal-enum-into-int", "def r: Int := 2E3", "accept")
+    f.add("flow-if-condition-not-truthy", "class K\ndef k := K()\nif k then print(1)", "reject")
+    f.add("flow-if-condition-bool", "if 1 > 0 then print(1)", "accept")
+    f.add("flow-while-condition-not-truthy", "class K\ndef k := K()\nwhile k do print(1)", "reject")
+    f.add("flow-if-expression-branch-wrong-type", "def x: Int := if True then 1 else \"s\"", "reject")
+    f.add("flow-if-expression-conforming", "def x: Int := if True then 1 else 2", "accept")
+    f.add("flow-if-statement-branches-differ", "if True then print(1) else print(\"s\")", "accept")
+    f.add("flow-match-expression-arm-wrong-type", "def a := 1\ndef x: Int := match a\n    1 => 10\n    _ => \"s\"", "reject")
+    f.add("flow-match-expression-conforming", "def a := 1\ndef x: Int := match a\n    1 => 10\n    _ => 20", "accept")
     f.add("nested-call-wrong-type", fn + "def r: Int := f(f(\"s\"))", "reject")
     f.add("call-in-branch-wrong-type", fn + "if True then\n    f(\"s\")\n", "reject")
     return f
@@ -525,6 +533,153 @@ def ob_operator_typing(run, mir, rp, fam):
     e2.prove(run, ob, exm, [], conj(shape_claims), {}, replay)
 
 
+FLOW_RS = ckern.GEN + "control_flow.rs"
+
+
+def _describe_sites(ex, p, kids, astr, env):
+    """Constraints added on a path, in order, described over the node's children."""
+    s = p.state
+    frm, desc = {}, []
+    for ev in p.events:
+        if ev["name"].endswith("From::from") and "Expected" in ev["name"]:
+            for k, r in list(kids.items()) + [("<node>", astr)]:
+                if z3.eq(ev["argvals"][0], ex.to_val(s, r)):
+                    frm[ex.to_val(s, ev["ret"]).get_id()] = f"E({k})"
+    cons = {}
+    for ev in p.events:
+        short = ev["name"].split("::")[-1]
+        if ev["name"].startswith("Constraint::") and short in ("truthy", "stringy", "undefined"):
+            arg = ev["args"][1]
+            v = ex.to_val(s, ex.read_ref(s, arg) if isinstance(arg, Ref) else arg)
+            cons[ex.to_val(s, ev["ret"]).get_id()] = f"{short}({frm.get(v.get_id(), '?')})"
+    for ev in p.events:
+        if ev["name"].endswith("ConstrBuilder::add"):
+            pv = ex.to_val(s, ex.read_ref(s, ev["args"][2]) if isinstance(ev["args"][2], Ref) else ev["args"][2])
+            cv = ex.to_val(s, ex.read_ref(s, ev["args"][3]) if isinstance(ev["args"][3], Ref) else ev["args"][3])
+            same_env = z3.eq(ev["argvals"][4], ex.to_val(s, env))
+            desc.append(f"{frm.get(pv.get_id(), '?')} >= {frm.get(cv.get_id(), '?')}" + ("" if same_env else " [other env]"))
+        elif ev["name"].endswith("ConstrBuilder::add_constr"):
+            cvv = ex.to_val(s, ex.read_ref(s, ev["args"][1]) if isinstance(ev["args"][1], Ref) else ev["args"][1])
+            same_env = z3.eq(ev["argvals"][2], ex.to_val(s, env))
+            desc.append(cons.get(cvv.get_id(), "?") + ("" if same_env else " [other env]"))
+    return desc
+
+
+def ob_flow_constraints(run, mir, rp, fam):
+    ob = run.ob("control-flow-typing", "E2+z3", "gen_flow: the condition of if / while must be truthy; in expression position both branches of an "
+                "if are typed as the if itself (if >= then, if >= else) and in statement position no such constraint is added; in a match "
+                "every arm's pattern is compared with the matched expression (expr >= pattern), the arm body is typed as the match (body >= "
+                "match, and match >= body in expression position)", ["gen_flow (IfElse / While)", "constrain_cases (loop body)"])
+    fn = e2.find1(mir, file=FLOW_RS, name="gen_flow")
+    _rel, lay = ckern.node_enum()
+    got = {}
+    ex = Exec(mir, max_paths=20000)
+    for tag, kind, el in (("if-else", "IfElse", True), ("if", "IfElse", False), ("while", "While", None)):
+        st = State()
+        kids = {}
+        vals = {}
+        for f in lay[kind]:
+            a_, _pp = ckern.mk_ast(f"{kind}.{f}", opq(f"{kind}.{f}.node", "Node"))
+            kids[f] = Ref(ex.new_cell(st, a_))
+            vals[f] = kids[f]
+        if kind == "IfElse":
+            if el:
+                vals["el"] = Agg("Option", "Some", [kids["el"]])
+            else:
+                vals["el"] = Agg("Option", "None", [])
+                kids.pop("el")
+        node = ckern.mk_node(kind, vals)
+        ast, _ = ckern.mk_ast("ast", node)
+        astr = Ref(ex.new_cell(st, ast))
+        env, evs = ckern.sym_env(ex, st)
+        ctx, constr = ckern.refs(ex, st, "ctx", "constr")
+        ends = e2.run_kernel(run, ex, fn, [astr, env, ctx, constr], st)
+        descs = {}
+        for p in ends:
+            if result_kind(p) != "Ok":
+                continue
+            d = tuple(_describe_sites(ex, p, kids, astr, env))
+            # classify by the is_expr flag of the environment
+            r1, _m, _dt, _s = e2.solve(ex, list(p.cond) + [evs["is_expr"]])
+            r2, _m, _dt, _s = e2.solve(ex, list(p.cond) + [z3.Not(evs["is_expr"])])
+            if r1 == z3.sat:
+                descs.setdefault("expr", set()).add(d)
+            if r2 == z3.sat:
+                descs.setdefault("stmt", set()).add(d)
+        got[tag] = descs
+    want = {"if-else": {"expr": {("truthy(E(cond))", "E(<node>) >= E(then)", "E(<node>) >= E(el)")}, "stmt": {("truthy(E(cond))",)}},
+            "if": {"expr": {("truthy(E(cond))",)}, "stmt": {("truthy(E(cond))",)}},
+            "while": {"expr": {("truthy(E(cond))",)}, "stmt": {("truthy(E(cond))",)}}}
+    # match arms: one iteration of constrain_cases
+    fnc = e2.find1(mir, file=FLOW_RS, name="constrain_cases")
+    st = State()
+    ast_, _ = ckern.mk_ast("match", opq("match.node", "Node"))
+    astr = Ref(ex.new_cell(st, ast_))
+    mexpr, _ = ckern.mk_ast("expr", opq("expr.node", "Node"))
+    exprv = Agg("Option", "Some", [mexpr])
+    env, evs = ckern.sym_env(ex, st)
+    ctx, constr = ckern.refs(ex, st, "ctx", "constr")
+    cases = Ref(ex.new_cell(st, opq("cases", "Vec<AST>")))
+    ends = e2.run_kernel(run, ex, fnc, [astr, Ref(ex.new_cell(st, exprv)), cases, env, ctx, constr], st)
+    arm = {}
+    for p in ends:
+        if p.kind != "loop_back":
+            continue
+        s = p.state
+        nx = calls(p, "Iterator::next")
+        if not nx:
+            continue
+        case = ex.project(s, ex.project(s, nx[-1]["ret"], ("v", "Some")), ("f", 0), "&AST")
+        names_ = {}
+        # children of this case: cond (pattern with type), its inner expression, body
+        astf = e2.rust_struct(ckern.AST_RS, "AST")
+        cnode = ex.project(s, ex.project(s, case, ("f", astf.index("node")), "Node"), ("v", "Case"))
+        ccond = ex.project(s, cnode, ("f", lay["Case"].index("cond")), "Box<AST>")
+        cbody = ex.project(s, cnode, ("f", lay["Case"].index("body")), "Box<AST>")
+        cexpr = ex.project(s, ex.project(s, ex.project(s, ccond, ("f", astf.index("node")), "Node"), ("v", "ExpressionType")), ("f", lay["ExpressionType"].index("expr")), "Box<AST>")
+        kids = {"pattern": cexpr, "body": cbody, "expr": mexpr}
+        d = tuple(_describe_sites(ex, p, kids, astr, env))
+        r1, _m, _dt, _s = e2.solve(ex, list(p.cond) + [evs["is_expr"]])
+        r2, _m, _dt, _s = e2.solve(ex, list(p.cond) + [z3.Not(evs["is_expr"])])
+        is_et = any("ExpressionType" in str(c) and not str(c).startswith("Not(") for c in p.cond)
+        key = "typed-pattern" if len(d) and d[0].startswith("E(expr)") else "other-pattern"
+        if r1 == z3.sat:
+            arm.setdefault(("expr", key), set()).add(d)
+        if r2 == z3.sat:
+            arm.setdefault(("stmt", key), set()).add(d)
+    got["match-arm"] = {f"{a}/{b}": v for (a, b), v in arm.items()}
+    want["match-arm"] = {"expr/typed-pattern": {("E(expr) >= E(pattern)", "E(body) >= E(<node>)", "E(<node>) >= E(body)")},
+                         "stmt/typed-pattern": {("E(expr) >= E(pattern)", "E(body) >= E(<node>)")},
+                         "expr/other-pattern": {("E(body) >= E(<node>)", "E(<node>) >= E(body)")},
+                         "stmt/other-pattern": {("E(body) >= E(<node>)",)}}
+    tags = sorted(want)
+    kv = z3.Int("construct")
+    okv = z3.BoolVal(True)
+    for i, t in enumerate(tags):
+        okv = z3.If(kv == i, z3.BoolVal(got.get(t) == want[t]), okv)
+    found, block = [], []
+    for _ in range(len(tags) + 1):
+        r_, m_, dt, _s = e2.solve(ex, [kv >= 0, kv < len(tags), z3.Not(okv)] + block)
+        ob.solver_s += dt
+        ob.queries += 1
+        if r_ != z3.sat:
+            break
+        ki = m_.eval(kv).as_long()
+        found.append(tags[ki])
+        block.append(kv != ki)
+    ob.reach = "sat"
+    run.samples.append({"obligation": ob.id, "sites": {t: {k: sorted(map(list, v)) for k, v in got.get(t, {}).items()} for t in tags}})
+    if not found:
+        ob.discharged(f"unsat over {len(tags)} constructs")
+        return
+    rep = fam.as_replay("control-flow-typing:", only=["flow-"])({})
+    if rep and rep.get("reproduced"):
+        ob.violated(rep["role"], {"constructs": found, "sites": {t: {k: sorted(map(list, v)) for k, v in got.get(t, {}).items()} for t in found}}, rep, rep["detail"])
+    else:
+        ob.inconclusive(f"solver reports constructs {found} as constrained differently from the documented rules "
+                        f"({ {t: {k: sorted(map(list, v)) for k, v in got.get(t, {}).items()} for t in found} }) but the replay programs get the required verdicts")
+
+
 def ob_return(run, mir, rp, fam):
     ob = run.ob("return-direction", "E2", "gen_stmt Return arm: with a declared return type the returned expression is "
                 "generated and constrained with parent = declared type, child = the expression; without one it is an error",
@@ -749,7 +904,7 @@ def run(run):
                "outside: that a violation is still caught in every nesting context (branch forking in ConstrBuilder); the accepted-exactly-when direction for whole programs")
     run.trusted += ["rustc nightly MIR dump", "mirsym MIR semantics", "z3"]
     run.bounds = {"paths": "all paths of each kernel with loops cut at their headers"}
-    for f in (ob_call_parameters, ob_method_parameters, ob_access_direction, ob_shadow_mapping, ob_operator_typing, ob_return, ob_id_from_var, ob_fun_body, ob_unify_type):
+    for f in (ob_call_parameters, ob_method_parameters, ob_access_direction, ob_shadow_mapping, ob_operator_typing, ob_flow_constraints, ob_return, ob_id_from_var, ob_fun_body, ob_unify_type):
         try:
             f(run, mir, rp, fam)
         except Unsupported as e:
